@@ -229,7 +229,8 @@ def reload_history(cell, seed):
     for x in xs.values():
         if not util.call_lib(mod, x)[0]:
             return []
-    mod.load_state_dict(build(cell2).state_dict())
+    if not util.reload_in_place(mod, build(cell2)):
+        return [res(INCONCLUSIVE, {'cell': cell2, 'input': 'reload'}, 'M-REF', 'in-place reload of the filter buffers refused')]
     out = []
     L = refs.flen(other)
     for kind, x in xs.items():
